@@ -465,6 +465,11 @@ func (s *netSim) byzAct(b int) {
 			id = s.ids[name]
 		}
 		v := s.w.SignVoteFor(b, typ, h, r, id, time.Now())
+		if n := rs.Validators.Size(); s.rng.Intn(6) == 0 && n > 1 {
+			// SLOT STUFFING: its own address and valid signature, but the position of another validator (one validator
+			// filling several slots of a vote set would reach +2/3 alone); abstracted as an invalid vote
+			v.ValidatorIndex = (v.ValidatorIndex + 1 + uint32(s.rng.Intn(n-1))) % uint32(n)
+		}
 		s.deliver(flight{to: to, from: b, msg: &consensus.VoteMessage{Vote: v}})
 	case 3: // a proposal if it is the proposer of the target's round: two different blocks for different nodes
 		if s.w.IDOf(rs.Validators.GetProposer().Address) != b || rs.Proposal != nil {
